@@ -263,7 +263,7 @@ PROPS = {
         "variant": "fips",
         "ldflags": ["-Wl,--wrap=_aes_self_tests", "-Wl,--wrap=_sha_self_tests", "-Wl,--wrap=_sha1_ctx_mgr_init"],
         "quick": {"cases": 40000},
-        "thorough": {"cases": 1500000},
+        "thorough": {"cases": 1500000, "opts": ["enum=1"], "budget_s": 5400},
         "technique": "property-based testing of schedules: deterministic instruction-level scheduler (x86 trap flag, logical threads as contexts in one OS thread), "
                      "rapidcheck-generated and shrinkable schedules, history invariants as oracle",
         "rule": "FIPS_MODE build. rapidcheck cases: 1..5 logical threads, each making its first call through isal_self_tests() or through a cheap approved entry "
@@ -274,7 +274,8 @@ PROPS = {
                 "thread returns success, and the wrapped approved entry does not start its work, before the self tests have finished and the verdict is published; "
                 "all first and second calls return the same verdict (0 / ISAL_CRYPTO_ERR_SELF_TEST); every thread finishes within the step bound under the fair "
                 "tail. Non-trivial = at some step >=2 threads were inside asm_check_self_tests_status, or a loser reached the spin loop before the publish. "
-                "Distinct = hash of the case JSON.",
+                "Distinct = hash of the case JSON. The thorough tier additionally enumerates EVERY run-to-yield schedule with at most two preemptions (position x "
+                "target thread) for 12 two-thread and 4 three-thread combinations of (entry kinds, outcome, yield points): about 7.5 x 10^5 schedules, complete for that bound.",
         "assumptions": COMMON_ASSUME + ["sequential consistency: x86-TSO store buffering is not modelled (the protocol's only plain store is the final publish, after "
                                         "which the publisher reads nothing back)", "real-thread stress is not the deciding engine"],
     },
